@@ -160,7 +160,7 @@ def _judge_sched_http(case, o, m):
     f = o["final"]
     if not m["impl_final_consistent"]:
         return False, "inconsistent_end_state", False, {"schedule": sub, "final": f, "events": o["events"][-8:]}
-    if f["sockets_open"] > 1 or f["threads_alive"] > 1 or (not f["running"] and f["sockets_open"] > 0):
+    if f["sockets_open"] > 1 or f["threads_alive"] > 1 or (f["running"] is False and f["sockets_open"] > 0):
         return False, "leaked_socket_or_thread", False, {"schedule": sub, "final": f}
     for i, (e, ms) in enumerate(zip(o["events"], m["states"])):
         if e["state"]["sockets_open"] > 1 or e["state"]["threads_alive"] > 1:
